@@ -41,6 +41,7 @@ type c09cfg struct {
 	pNoReply int
 	pDelay  int
 	Lq      int // queue limit while dialing (>= L)
+	pDialFail int // history mode: percent of dials that are refused
 	w       *W1
 }
 
@@ -86,6 +87,10 @@ func c09Setup(rc *RunCtx) simrt.Config {
 	rc.Cfg["p_cancel"] = c.pCancel
 	rc.Cfg["p_noreply"] = c.pNoReply
 	rc.Cfg["p_delay"] = c.pDelay
+	if c.mode == 0 && r.Choose(4) == 0 {
+		c.pDialFail = []int{20, 50}[r.Choose(2)]
+	}
+	rc.Cfg["p_dial_fail"] = c.pDialFail
 	rc.priv = c
 	return cfg
 }
@@ -232,8 +237,15 @@ func c09History(rc *RunCtx, c *c09cfg, w *W1) {
 		return a
 	}
 	serve := w.Serve(ServerOpts{Plan: plan})
-	rc.Net.Handle("udp", srvAddr, serve)
-	rc.Net.Handle("tcp", srvAddr, serve)
+	dialFault := func(ctx context.Context, nth int) error {
+		if simrt.Choose(100) < c.pDialFail {
+			simrt.Fault("dial_refused")
+			return simnet.ErrRefused
+		}
+		return nil
+	}
+	rc.Net.Handle("udp", srvAddr, serve).DialFault = dialFault
+	rc.Net.Handle("tcp", srvAddr, serve).DialFault = dialFault
 	u := w.NewTransport(c.kind, TransportOpts{MaxCQ: c.L, MaxLazyQ: c.Lq, IdleTimeout: time.Hour})
 	done := make(chan struct{}, 64)
 	for ci := 0; ci < c.callers; ci++ {
@@ -252,7 +264,7 @@ func c09History(rc *RunCtx, c *c09cfg, w *W1) {
 					}).Daemon = true
 				}
 				w.Exchange(u, call)
-				if call.Err != nil && ctx.Err() == nil && c.Lq == c.L {
+				if call.Err != nil && ctx.Err() == nil && c.Lq == c.L && c.pDialFail == 0 {
 					// the server is healthy, dials succeed, the context is live:
 					// nothing licenses a failure
 					rc.Fail("query_refused_on_healthy_transport", "call %d failed with %q although its context is live, the server answers and connections can be opened (limit %d)", call.Idx, call.Err, c.L)
@@ -267,6 +279,13 @@ func c09History(rc *RunCtx, c *c09cfg, w *W1) {
 		simrt.Recv(0, done)
 	}
 	if rc.Viol != nil {
+		u.Close()
+		return
+	}
+	if c.pDialFail > 0 {
+		// failed dials leave their (never established) connections registered
+		// until something touches them: Close must cope with those too
+		simrt.Probe("c09.close_after_dial_failures")
 		u.Close()
 		return
 	}
